@@ -211,12 +211,19 @@ func derivesField(p *an.Prog, v ssa.Value, typ, field string) bool {
 
 // checkLowBalanceGuard verifies the canonical refusal predicate for one LowBalanceError return.
 // afterDebit, when non-nil, must gate the balance read.
-func checkLowBalanceGuard(p *an.Prog, r *an.Run, fn *ssa.Function, lb lbReturn, rule, key string, afterDebit ssa.CallInstruction) {
+// site is nil when fn itself builds the LowBalanceError; otherwise fn calls, at site, the helper that builds it and the
+// guards may sit on either side of that call.
+func checkLowBalanceGuard(p *an.Prog, r *an.Run, fn *ssa.Function, lb lbReturn, rule, key string, afterDebit ssa.CallInstruction, site ssa.CallInstruction) {
 	var bad []string
 	node := nodeParam(fn)
 	var rel *ctrlRel
 	unsetGuard := false
-	for _, cr := range ctrlRels(lb.Ret.Block()) {
+	rels := ctrlRels(lb.Ret.Block())
+	if site != nil {
+		rels = append(rels, ctrlRels(site.Block())...)
+		bad = append(bad, failPropagates(p, fn, site)...)
+	}
+	for _, cr := range rels {
 		cr := cr
 		lMin := derivesField(p, cr.L, "", "MinBalance")
 		rMin := derivesField(p, cr.R, "", "MinBalance")
@@ -281,7 +288,8 @@ func checkLowBalanceGuard(p *an.Prog, r *an.Run, fn *ssa.Function, lb lbReturn, 
 	}
 	r.Check(len(bad) == 0, rule, key, lb.Ret.Pos(), "refusal iff deposit+credit < MinBalance, on the node's own (post-charge) balance, reported as CurrentBalance", "%s", strings.Join(bad, "; "))
 	r.Check(unsetGuard, "unset-off", key, lb.Ret.Pos(), "refusal is guarded by MinBalance != nil", "the LowBalanceError return is not guarded by MinBalance != nil (an unset minimum must switch the rule off)")
-	hostGuard := node != nil && boolCtrl(lb.Ret.Block(), func(v ssa.Value) bool { return isFieldOfParam(v, "IsHost", node) }, false)
+	isHostFld := func(v ssa.Value) bool { return isFieldOfParam(v, "IsHost", node) }
+	hostGuard := node != nil && (boolCtrl(lb.Ret.Block(), isHostFld, false) || (site != nil && boolCtrl(site.Block(), isHostFld, false)))
 	r.Check(hostGuard, "hosts-exempt", key, lb.Ret.Pos(), "refusal is guarded by !node.IsHost", "a LowBalanceError can be returned for a full-node host (no !IsHost guard on the path): hosts must never be refused for their balance")
 }
 
@@ -302,38 +310,58 @@ func runC03(p *an.Prog, r *an.Run, tier string) {
 	checkBalanceReadErrors(p, r)
 	// every function constructing a LowBalanceError must be one of the two anchors
 	n := 0
+	updDebit := func() ssa.CallInstruction {
+		var debit ssa.CallInstruction
+		for _, c := range an.Calls(onUpdate, false) {
+			if isLedgerWriteCall(c) {
+				if a := methodArgs(c); len(a) == 2 && negCallOf(p, a[1]) != nil {
+					debit = c
+				}
+			}
+		}
+		return debit
+	}
+	checkAt := func(anchor *ssa.Function, lb lbReturn, key string, site ssa.CallInstruction) {
+		n++
+		switch anchor {
+		case onClient:
+			checkLowBalanceGuard(p, r, anchor, lb, "connect-operand", key, nil, site)
+		case onUpdate:
+			if debit := updDebit(); debit == nil {
+				r.Fail("update-operand", key, lb.Ret.Pos(), "no debit found in OnUpdate: the minimum cannot be compared with the post-charge balance")
+			} else {
+				checkLowBalanceGuard(p, r, anchor, lb, "update-operand", key, debit, site)
+			}
+		default:
+			checkLowBalanceGuard(p, r, anchor, lb, "other-operand", key, nil, site)
+		}
+	}
 	for _, fn := range p.Repo {
 		lbs := lowBalanceReturns(fn)
 		if len(lbs) == 0 {
 			continue
 		}
 		name := an.FuncName(fn)
+		// a helper shared by the anchors (never used as a value, called only from them): judged at each call site
+		if fn != onClient && fn != onUpdate && isMinBalanceHelper(p, fn, onClient, onUpdate) {
+			r.Analysed(name)
+			for _, site := range p.StaticSites(fn) {
+				for i, lb := range lbs {
+					key := an.FuncName(site.Parent())
+					if len(lbs) > 1 {
+						key += "#" + itoa(i+1)
+					}
+					checkAt(site.Parent(), lb, key, site)
+				}
+			}
+			continue
+		}
 		for i, lb := range lbs {
-			n++
 			key := name
 			if len(lbs) > 1 {
 				key += "#" + itoa(i+1)
 			}
-			switch fn {
-			case onClient:
-				checkLowBalanceGuard(p, r, fn, lb, "connect-operand", key, nil)
-			case onUpdate:
-				var debit ssa.CallInstruction
-				for _, c := range an.Calls(fn, false) {
-					if isLedgerWriteCall(c) {
-						if a := methodArgs(c); len(a) == 2 && negCallOf(p, a[1]) != nil {
-							debit = c
-						}
-					}
-				}
-				if debit == nil {
-					r.Fail("update-operand", key, lb.Ret.Pos(), "no debit found in OnUpdate: the minimum cannot be compared with the post-charge balance")
-				} else {
-					checkLowBalanceGuard(p, r, fn, lb, "update-operand", key, debit)
-				}
-			default:
-				checkLowBalanceGuard(p, r, fn, lb, "other-operand", key, nil)
-			}
+			checkAt(fn, lb, key, nil)
 		}
 	}
 	r.Floor("low-balance-sites", n, 2)
@@ -442,7 +470,7 @@ func runC03(p *an.Prog, r *an.Run, tier string) {
 	// disconnectPeers shape
 	bad = nil
 	var svcCalls []ssa.CallInstruction
-	for _, fn := range an.WithAnon(dis) {
+	for _, fn := range regionFuncs(p, dis) {
 		for _, c := range an.Calls(fn, false) {
 			if isServiceCall(an.CallObj(c)) {
 				svcCalls = append(svcCalls, c)
@@ -458,11 +486,11 @@ func runC03(p *an.Prog, r *an.Run, tier string) {
 			bad = append(bad, "the reverse call is not vipnode_disconnect")
 		}
 		els, ok := variadicElems(a[3])
-		if !ok || len(els) != 1 || !p.Derives(0, els[0]).HasParam(dis.Params[2]) {
+		if !ok || len(els) != 1 || !p.DerivesIn(dis, 2, els[0]).HasParam(dis.Params[2]) {
 			bad = append(bad, "vipnode_disconnect is not called with exactly the cut-off node's id")
 		}
 		// receiver derives from a lookup in remoteHosts keyed by a peer's ID
-		d := p.Derives(0, c.Common().Value)
+		d := p.DerivesIn(dis, 2, c.Common().Value)
 		okLookup := false
 		for _, n := range d.Nodes {
 			if lk, ok := n.(*ssa.Lookup); ok && memMapField(lk.X) == "remoteHosts" {
@@ -1127,6 +1155,19 @@ func checkNoBypass(p *an.Prog, r *an.Run, fn *ssa.Function, from ssa.CallInstruc
 			}
 		}
 	})
+	// a call of the shared min-balance helper is the comparison: its success edge is the legitimate accept (the helper
+	// itself is checked in its own right below)
+	for _, c := range an.Calls(fn, false) {
+		h := c.Common().StaticCallee()
+		if h == nil || h == fn || len(lowBalanceReturns(h)) == 0 || !isMinBalanceHelper(p, h, fn, p.Method("pool/balance", "payPerInterval", "OnClient"), p.Method("pool/balance", "payPerInterval", "OnUpdate")) {
+			continue
+		}
+		nCmp++
+		for _, e := range an.ErrEdges(c).Succ {
+			cut[e] = true
+		}
+		checkNoBypass(p, r, h, nil)
+	}
 	isAccept := func(in ssa.Instruction) bool {
 		ret, ok := in.(*ssa.Return)
 		if !ok {
@@ -1441,4 +1482,28 @@ func sentinelSwallowed(p *an.Prog, fn *ssa.Function, c ssa.CallInstruction) []st
 		}
 	}
 	return dedup(bad)
+}
+
+// isMinBalanceHelper: fn builds the LowBalanceError for the anchors: it is never used as a value and every static call
+// site is in one of them.
+func isMinBalanceHelper(p *an.Prog, fn *ssa.Function, anchors ...*ssa.Function) bool {
+	if p.IsAddressTaken(fn) {
+		return false
+	}
+	sites := p.StaticSites(fn)
+	if len(sites) == 0 {
+		return false
+	}
+	for _, s := range sites {
+		ok := false
+		for _, a := range anchors {
+			if s.Parent() == a {
+				ok = true
+			}
+		}
+		if !ok {
+			return false
+		}
+	}
+	return true
 }
